@@ -8,6 +8,19 @@ RUNNER = 'c03_runner.py'
 EXPECT_TOOLS = {'git': {'git': True, 'diff3': True}, 'diff3': {'git': False, 'diff3': True}, 'diff': {'git': False, 'diff3': False}, 'none': {'git': False, 'diff3': False}}
 MODES = ('git', 'diff3', 'diff', 'none')   # 'diff': a machine with plain diff(1) only (no git, no diff3); 'none': not even that
 _MS = ['inline', 'use-base', 'use-local', 'use-remote']
+# process-locale variants (appended to a tool mode as 'git@C'): the encoding the interpreter uses for files opened without an
+# explicit encoding, for its standard streams and for file names.  'C' / 'POSIX': no UTF-8 anywhere (coercion and UTF-8 mode
+# off, as on a minimal container / cron / ssh session with LANG unset under an older or explicitly configured Python);
+# 'C-ioutf8': the same with only the standard streams forced to UTF-8; '*-tmpdir': the temp directory has a non-ASCII name.
+_NO_UTF8 = {'PYTHONUTF8': '0', 'PYTHONCOERCECLOCALE': '0', 'PYTHONIOENCODING': ''}
+LOCALES = {
+    'C': {'env': dict(_NO_UTF8, LC_ALL='C', LANG='C')},
+    'POSIX': {'env': dict(_NO_UTF8, LC_ALL='POSIX', LANG='POSIX', LC_CTYPE='POSIX')},
+    'C-ioutf8': {'env': dict(_NO_UTF8, LC_ALL='C', LANG='C', PYTHONIOENCODING='utf-8')},
+    'C-tmpdir': {'env': dict(_NO_UTF8, LC_ALL='C', LANG='C'), 'tmpdir': 'tmp-\u00fc\u2013\u65e5'},
+    'utf8-tmpdir': {'env': {}, 'tmpdir': 'tmp-\u00fc\u2013\u65e5'},
+}
+NON_UTF8_LOCALES = ('C', 'POSIX', 'C-ioutf8', 'C-tmpdir')
 FALLBACK_CONFIGS = [[m, i, o, t, 'cli'] for m in _MS for i in [None] + _MS for o in [None] + _MS + ['remove', 'clear-all'] for t in [True, False]] \
     + [['mergetool', None, None, True, 'web']]
 
@@ -29,6 +42,20 @@ class Sandbox:
                 os.symlink(self.real['diff'], os.path.join(self.dir, m, 'diff'))
 
     def env(self, mode='git'):
+        """mode: a tool availability of MODES, optionally followed by '@' and a process-locale variant of LOCALES
+        ('git@C', 'diff3@C-tmpdir', ...); without '@' the environment is the UTF-8 one it always was"""
+        mode, _, loc = mode.partition('@')
+        env = self._env(mode)
+        if loc:
+            var = LOCALES[loc]
+            env.update(var['env'])
+            if var.get('tmpdir'):       # a temp directory whose NAME is not ASCII (external helpers run with cwd = a directory below it)
+                td = os.path.join(self.dir, var['tmpdir'])
+                os.makedirs(td, exist_ok=True)
+                env['TMPDIR'] = td
+        return env
+
+    def _env(self, mode):
         d = self.dir
         return {'HOME': os.path.join(d, 'home'), 'JUPYTER_CONFIG_DIR': os.path.join(d, 'jc'), 'JUPYTER_CONFIG_PATH': os.path.join(d, 'jp'),
                 'JUPYTER_DATA_DIR': os.path.join(d, 'jd'), 'JUPYTER_PATH': os.path.join(d, 'jd'), 'XDG_CONFIG_HOME': os.path.join(d, 'xdg'),
@@ -65,6 +92,27 @@ def check_tools(sb):
         r = run(sb, [{'op': 'tools'}], mode)[0]
         out[mode] = r.get('ok', r)
     return out
+
+
+def check_locales(sb):
+    """what a process of each locale variant really uses: {variant: {'preferred': ..., 'fs': ..., 'stdout': ..., 'utf8_mode': ..., 'tmp_ascii': ...}}"""
+    import codecs
+    out = {}
+    for loc in LOCALES:
+        r = run(sb, [{'op': 'locale'}], 'git@' + loc)[0]
+        out[loc] = r.get('ok', r)
+    return out
+
+
+def locale_exercised(loc, seen):
+    """the variant gives the kind of process it stands for (a non-UTF-8 default file encoding / a non-ASCII temp directory)"""
+    import codecs
+    if not isinstance(seen, dict) or 'preferred' not in seen: return False
+    try: utf8 = codecs.lookup(seen['preferred']).name == 'utf-8'
+    except LookupError: utf8 = False
+    if loc in NON_UTF8_LOCALES and (utf8 or seen.get('utf8_mode')): return False
+    if LOCALES[loc].get('tmpdir') and seen.get('tmp_ascii'): return False
+    return True
 
 
 def pick_few(cfgs, r):
@@ -173,11 +221,18 @@ def has_text_conflict(t):
 def run_merge_tasks(sb, tasks, op='merge_all'):
     """tasks: [(triple, cfg list, mode)] -> results in order"""
     out = [None] * len(tasks)
-    for mode in MODES:
+    def group(mode, shards=14):
         idx = [i for i, t in enumerate(tasks) if t[2] == mode]
-        if not idx: continue
-        res = run(sb, [{'op': op, 'b': tasks[i][0]['b'], 'l': tasks[i][0]['l'], 'r': tasks[i][0]['r'], 'cfgs': tasks[i][1]} for i in idx], mode)
+        if not idx: return
+        res = run(sb, [{'op': op, 'b': tasks[i][0]['b'], 'l': tasks[i][0]['l'], 'r': tasks[i][0]['r'], 'cfgs': tasks[i][1]} for i in idx], mode, shards=shards)
         for i, r in zip(idx, res): out[i] = r
+    for mode in MODES: group(mode)
+    # tool mode x process-locale variant ('git@C', ...): small groups, several at a time
+    extra = sorted(set(t[2] for t in tasks) - set(MODES))
+    if extra:
+        from concurrent.futures import ThreadPoolExecutor
+        with ThreadPoolExecutor(max_workers=4) as ex:
+            list(ex.map(lambda m: group(m, 4), extra))
     return out
 
 
@@ -433,6 +488,118 @@ def lifted_group_triples(r, n_random, gennb, quick=True):
                     other['cells'][q]['source'] = c['source'] + ('' if c['source'].endswith('\n') or not c['source'] else '\n') + 'other side\n'
         out.append({'b': b, 'l': l, 'r': rm, 'src': 'crafted:lifted_group_not_last_gen'})
     return out
+
+
+_LOC_CHARS = {      # kinds of non-ASCII text, by what can encode them
+    'latin1': ['caf\xe9', 'r\xe9sum\xe9 \xfc\xf1', '\xe5 \xf8 \xdf'],      # 8-bit western code pages can encode these, ASCII cannot
+    'bmp': ['\u03b1\u03b2\u03b3 \u2013 \u0416', 'x \u2264 y \u2192 z', '\u20ac 5'],      # outside latin-1
+    'cjk': ['\u65e5\u672c\u8a9e', '\u4e2d\u6587 \ud55c\uae00'],
+    'astral': ['\U0001f600 ok', 'set \U0001d4b3'],      # outside the BMP (surrogate pairs in UTF-16)
+    'combining': ['e\u0301 a\u0308', 'n\u0303o'],      # base letter + combining mark
+    'space': ['a\xa0b', '\u200bzero', '\ufeffbom'],      # non-ASCII blanks / format characters (NBSP, ZWSP, BOM)
+}
+_LOC_SHAPES = ('disjoint', 'same-line', 'both-append', 'similar-insert', 'delete-vs-edit-line')
+_LOC_WHERE = ('untouched-line', 'local-edit', 'remote-edit', 'both-edits', 'everywhere')
+
+
+def _loc_texts(shape, where, word, k, newline_at_end=True):
+    """(base, local, remote) source texts of ONE cell: both sides change it, differently; `word` (non-ASCII) is put where
+    `where` says: only in a line neither side touches, only in what local / remote writes, in both edits, or everywhere"""
+    def w(place): return (' ' + word) if where == 'everywhere' or where == place else ''
+    kind_line = ('# notes%s\n', 'title = "t%s"\n', 'print("v%s")\n')[k % 3]
+    base = ['import os\n', kind_line % w('untouched-line'), 'x = 1\n', 'y = 2\n', 'z = x + y\n', 'print(z)\n']
+    l = list(base); rm = list(base)
+    wl = w('local-edit') or w('both-edits'); wr = w('remote-edit') or w('both-edits')
+    if shape == 'disjoint':
+        l[0] = 'import os, sys  #%s\n' % wl; rm[5] = 'print(z, "done%s")\n' % wr
+    elif shape == 'same-line':
+        l[3] = 'y = "L%s"\n' % wl; rm[3] = 'y = "R%s"\n' % wr
+    elif shape == 'both-append':
+        l.append('local_tail = "%s"\n' % wl.strip()); rm.append('remote_tail = "%s"\n' % wr.strip())
+    elif shape == 'delete-vs-edit-line':
+        del l[2]; l[0] = 'import os  #%s\n' % wl; rm[2] = 'x = 10  #%s\n' % wr
+    else:   # similar-insert: the three texts are those of a NEW cell (base is not used)
+        l[3] = 'y = "L%s"\n' % wl; rm[3] = 'y = "R%s"\n' % wr
+    out = [''.join(x) for x in (base, l, rm)]
+    if not newline_at_end: out = [x[:-1] for x in out]
+    return out
+
+
+def _loc_cell(kind, minor, src, cid):
+    c = {'cell_type': kind, 'metadata': {}, 'source': src}
+    if kind == 'code': c.update({'execution_count': None, 'outputs': []})
+    if minor >= 5: c['id'] = cid
+    return c
+
+
+def locale_text_triples(r, n_random, gennb, quick=True):
+    """Non-ASCII text where it reaches an external text-merge helper (temp files written for git merge-file / diff3, their
+    output read back): the source of a cell BOTH sides edit (inline-source) and the sources of similar cells both sides insert
+    (inline-cells).  Systematic part: shape of the two edits x where the non-ASCII text sits (a line nobody touches / one
+    side's edit / both / everywhere) x kind of character (latin-1, other BMP, CJK, astral, combining, non-ASCII blanks)
+    (a covering third in the quick tier), with cell kind, minor, trailing newline and orientation cycling; random part: a
+    generated notebook, a random cell of it given such a two-sided edit.  Meant to be merged under process locales whose
+    default file encoding cannot represent the text (and under UTF-8 ones)."""
+    out = []; n = 0
+    classes = sorted(_LOC_CHARS)
+    for si, shape in enumerate(_LOC_SHAPES):
+        for wi, where in enumerate(_LOC_WHERE):
+            for ci, cls in enumerate(classes):
+                n += 1
+                if quick and (si + wi + ci) % 3: continue
+                word = _LOC_CHARS[cls][n % len(_LOC_CHARS[cls])]
+                kind = ('code', 'markdown', 'code', 'raw')[n % 4]; minor = (5, 4, 5, 2)[(n // 2) % 4]; swap = (n // 3) % 2
+                tb, tl, tr = _loc_texts(shape, where, word, n, newline_at_end=bool(n % 5))
+                first = _loc_cell('code', minor, 'setup = 0\n', 'loc-0')
+                if shape == 'similar-insert':
+                    b = {'cells': [first], 'metadata': {}, 'nbformat': 4, 'nbformat_minor': minor}
+                    l = copy.deepcopy(b); rm = copy.deepcopy(b)
+                    l['cells'].append(_loc_cell(kind, minor, tl, 'loc-l')); rm['cells'].append(_loc_cell(kind, minor, tr, 'loc-r'))
+                else:
+                    b = {'cells': [first, _loc_cell(kind, minor, tb, 'loc-1')], 'metadata': {}, 'nbformat': 4, 'nbformat_minor': minor}
+                    l = copy.deepcopy(b); rm = copy.deepcopy(b)
+                    l['cells'][1]['source'] = tl; rm['cells'][1]['source'] = tr
+                if swap: l, rm = rm, l
+                out.append({'b': b, 'l': l, 'r': rm, 'src': 'locale_text:%s/%s/%s' % (shape, where, cls)})
+    for i in range(n_random):
+        minor = r.choice([0, 4, 4, 5, 5])
+        b = gennb.gen_notebook(r, minor=minor, ncells=r.choice([1, 2, 3]), rich=False)
+        shape = r.choice(_LOC_SHAPES); where = r.choice(_LOC_WHERE); cls = r.choice(classes)
+        word = ' '.join(r.choice(_LOC_CHARS[c]) for c in ([cls] + ([r.choice(classes)] if r.random() < 0.4 else [])))
+        tb, tl, tr = _loc_texts(shape, where, word, r.randint(0, 5), newline_at_end=r.random() < 0.7)
+        l = copy.deepcopy(b); rm = copy.deepcopy(b)
+        if shape == 'similar-insert':
+            pos = r.randint(0, len(b['cells'])); used = gennb.used_ids(b); kind = r.choice(['code', 'markdown', 'raw'])
+            cl = _loc_cell(kind, minor, tl, gennb.gen_id(r, used)); cr = _loc_cell(kind, minor, tr, gennb.gen_id(r, used))
+            l['cells'].insert(pos, cl); rm['cells'].insert(pos, cr)
+        else:
+            j = r.randrange(len(b['cells']))
+            keep = b['cells'][j]['source'] if r.random() < 0.5 else ''      # (sometimes the generated text stays in front)
+            if keep and not keep.endswith('\n'): keep += '\n'
+            b['cells'][j]['source'] = keep + tb; l['cells'][j]['source'] = keep + tl; rm['cells'][j]['source'] = keep + tr
+        out.append({'b': b, 'l': l, 'r': rm, 'src': 'locale_text_gen:%s/%s/%s' % (shape, where, cls)})
+    return out
+
+
+def locale_configs(cfgs, r, n_more=2):
+    """configurations for the process-locale leg: every one that sends a two-sided source edit to the text-merge helper with
+    the default output handling (inline merge strategy with input strategy unset / inline, or input strategy inline under any
+    merge strategy; transients off for two of them), the web tool, two that do not (controls), and a few more inline ones at random"""
+    def inline_source(c): return c[4] == 'cli' and ((c[0] == 'inline' and c[1] is None) or c[1] == 'inline')
+    out = [c for c in cfgs if inline_source(c) and c[2] is None and (c[3] or (c[0] == 'inline' and c[1] is None) or c[0] == 'use-local')]
+    out += [c for c in cfgs if c[4] == 'web']
+    out += [c for c in cfgs if c[:4] in (['use-local', None, None, True], ['inline', 'use-base', None, True])]
+    rest = [c for c in cfgs if inline_source(c) and c not in out]
+    r.shuffle(rest)
+    return out + rest[:n_more]
+
+
+def locale_modes(quick=True):
+    """tool availability x process-locale variant for the locale leg.  The plain modes are the UTF-8 controls."""
+    if not quick:
+        return list(MODES) + ['%s@%s' % (m, loc) for loc in LOCALES for m in MODES]
+    return ['git', 'diff3', 'none', 'git@C', 'diff3@C', 'none@C', 'git@POSIX', 'diff3@C-ioutf8', 'git@C-tmpdir', 'diff3@C-tmpdir',
+            'git@utf8-tmpdir', 'diff3@utf8-tmpdir']
 
 
 def crafted_triples(r, n, gennb):
